@@ -136,13 +136,9 @@ def n2_wiring(ctx):
             else:
                 # unit quantities: Option field of the unit with the documented default
                 fld = {3: ('decimal_digits', '2'), 4: ('remove_fract_if_zero', 'True'), 5: ('use_fract_rounding', 'True')}[i]
-                mm = re.fullmatch(r'Option::map_or\(self\.1\.(\w+), (\w+), closure:.*\)', args[i])
-                clo_ok = False
-                if mm:
-                    e = strip(b.expr(t['args'][i]))
-                    cb = ctx.facts.bodies.get(strip(e[2][2])[1][len('closure:'):]) if strip(e[2][2])[0] == 'aggr' else None
-                    clo_ok = cb is not None and strip(cb.ret_expr())[0] == 'arg'
-                if mm and mm.group(1) == fld[0] and mm.group(2) == fld[1] and clo_ok:
+                # the unit's Option field or its documented default, however it is written (map_or / unwrap_or / match)
+                got = sorted(set(render(a_) for a_, _c in alternatives(b, b.expr(t['args'][i]))))
+                if got == sorted([fld[1], 'self.1.%s as Some.0' % fld[0]]):
                     ctx.ok('N2', 'DynamicTypeItem::print: %s = unit.%s or %s' % (names[i], fld[0], fld[1]), 'wiring', site=t['loc'], sample=False)
                 else:
                     ctx.finding('N2', 'DynamicTypeItem/%s' % names[i].replace(' ', '-'), 'DynamicTypeItem::print passes %s as the %s; expected the unit\'s own %s (default %s)' % (args[i][:80], names[i], fld[0], fld[1]), site=t['loc'])
